@@ -302,11 +302,14 @@ package hackpadfs
 //@   requires fs != nil
 
 //@   loop 1 invariant "bounds" 0 <= i && i <= len(path) && VP(path) && fs != nil && !implements(fs, MkdirAllFS) && !implements(fs, MountFS)
+//@   loop 1 invariant "quiet" implies(!contains(path, "/"), world() == old(world()))
 //@   ensures "native" implies(implements(fs, MkdirAllFS), err == old(ret("hackpadfs.(MkdirAllFS).MkdirAll", 0, fs, path, perm)) &&
 //@                      world() == old(worldAfter("hackpadfs.(MkdirAllFS).MkdirAll", fs, path, perm)))
 //@   ensures "mount" implies(!implements(fs, MkdirAllFS) && implements(fs, MountFS), translated(err, old(ret("hackpadfs.MkdirAll", 0, mountOf(fs, path), subOf(fs, path), perm)), path, old(subOf(fs, path))) &&
 //@                      world() == old(worldAfter("hackpadfs.MkdirAll", mountOf(fs, path), subOf(fs, path), perm)))
 //@   ensures "gate" implies(!implements(fs, MkdirAllFS) && !implements(fs, MountFS) && !VP(path), isPathError(err) && pathOf(err) == path && errIs(err, ErrInvalid) && world() == old(world()))
+//@   ensures "leaf" [C08] implies(!implements(fs, MkdirAllFS) && !implements(fs, MountFS) && VP(path) && !contains(path, "/"),
+//@                      err == old(ret("hackpadfs.Mkdir", 0, fs, path, perm)) && world() == old(worldAfter("hackpadfs.Mkdir", fs, path, perm)))
 //@   nopanic
 
 // RemoveAll: native and mount branches exact. The fallback recursion is only pinned down where its sequence of
